@@ -863,29 +863,188 @@ func r023(c *Ctx, inEng map[*ssa.Function]bool) {
 				flip = st
 			}
 		})
+		// the inversion may have been extracted into a helper of the package that is handed the
+		// child's result: the flip, the flag test and the marking are then judged in the helper
+		// (whose returns are what the closure sends on)
+		bodyFn := fn
+		var helperCall *ssa.Call
+		if flip == nil {
+			core.Instrs(fn, func(_ *ssa.BasicBlock, _ int, ins ssa.Instruction) {
+				call, ok := ins.(*ssa.Call)
+				if !ok || flip != nil {
+					return
+				}
+				h := call.Common().StaticCallee()
+				if h == nil || h.Blocks == nil || core.FuncPkg(h) != core.FuncPkg(fn) {
+					return
+				}
+				takesResult := false
+				for _, a := range call.Common().Args {
+					if ri.IsResult(a.Type()) {
+						takesResult = true
+					}
+				}
+				if !takesResult {
+					return
+				}
+				core.Instrs(h, func(_ *ssa.BasicBlock, _ int, i2 ssa.Instruction) {
+					st, ok := i2.(*ssa.Store)
+					if !ok {
+						return
+					}
+					fa, ok := st.Addr.(*ssa.FieldAddr)
+					if !ok || !ri.IsResultPtr(fa.X.Type()) || fa.Field != ri.MField {
+						return
+					}
+					if k, ok := core.IntConst(st.Val); ok && k == ri.MemberVals["IsMember"] {
+						flip, bodyFn, helperCall = st, h, call
+					}
+				})
+			})
+		}
 		if flip == nil {
 			r.Undecide("R02.3", name, "negation flip", p.Pos(fn.Pos()), "no store of IsMember found in the negation closure")
 			continue
 		}
-		// dominated by the false branch of flag.Load()
+		// on every feasible path to the flip the cut-off flag was read and found unset - whatever
+		// the form of the tests (nested, or one combined case `NotMember && flag.Load()` followed
+		// by a plain NotMember case): paths are followed with what they establish about the flag
+		// and about "membership == NotMember", contradictory ones are dropped
 		var flag ssa.Value
 		var loadIf *ssa.BasicBlock
-		for _, cd := range core.CondsAt(flip.Block()) {
-			if call, ok := cd.V.(*ssa.Call); ok && !cd.True {
-				if obj := core.CalleeObj(call.Common()); obj != nil && obj.Name() == "Load" && obj.Pkg() != nil && obj.Pkg().Path() == "sync/atomic" {
+		isLoad := func(v ssa.Value) *ssa.Call {
+			call, ok := v.(*ssa.Call)
+			if !ok {
+				return nil
+			}
+			if obj := core.CalleeObj(call.Common()); obj != nil && obj.Name() == "Load" && obj.Pkg() != nil && obj.Pkg().Path() == "sync/atomic" {
+				return call
+			}
+			return nil
+		}
+		for _, b := range bodyFn.Blocks {
+			if len(b.Instrs) == 0 {
+				continue
+			}
+			if ifi, ok := b.Instrs[len(b.Instrs)-1].(*ssa.If); ok {
+				v := ifi.Cond
+				if u, ok := v.(*ssa.UnOp); ok && u.Op == token.NOT {
+					v = u.X
+				}
+				if ph, ok := v.(*ssa.Phi); ok {
+					for _, e := range ph.Edges {
+						if isLoad(e) != nil {
+							v = e
+						}
+					}
+				}
+				if call := isLoad(v); call != nil {
 					flag = core.ValueOrigin(call.Common().Args[0])
-					loadIf = cd.At
+					loadIf = b
 				}
 			}
 		}
-		if flag == nil {
+		type pf struct {
+			b, pred    *ssa.BasicBlock
+			unset, mNM int // -1 false, +1 true, 0 not established
+		}
+		flipReachedWithout := false
+		seenPF := map[pf]bool{}
+		var walkPF func(f pf)
+		walkPF = func(f pf) {
+			if seenPF[f] {
+				return
+			}
+			seenPF[f] = true
+			if f.b == flip.Block() && f.unset != 1 {
+				flipReachedWithout = true
+			}
+			for k, sc := range f.b.Succs {
+				g := pf{sc, f.b, f.unset, f.mNM}
+				feasible := true
+				if ifi, ok := f.b.Instrs[len(f.b.Instrs)-1].(*ssa.If); ok && f.b.Succs[0] != f.b.Succs[1] {
+					v, truth := ifi.Cond, k == 0
+					for i := 0; i < 4; i++ {
+						if u, isNot := v.(*ssa.UnOp); isNot && u.Op == token.NOT {
+							v, truth = u.X, !truth
+							continue
+						}
+						// `a && b` of a switch case is a phi: it has the value of the edge we came in on
+						if ph, isPhi := v.(*ssa.Phi); isPhi && ph.Block() == f.b && f.pred != nil {
+							for j, pr := range f.b.Preds {
+								if pr == f.pred && j < len(ph.Edges) {
+									v = ph.Edges[j]
+								}
+							}
+							if kc, isK := v.(*ssa.Const); isK && kc.Value != nil {
+								if (kc.Value.String() == "true") != truth {
+									feasible = false
+								}
+							}
+							continue
+						}
+						break
+					}
+					if isLoad(v) != nil {
+						g.unset = -1
+						if !truth {
+							g.unset = 1
+						}
+					}
+					if op, x, y, ok := core.BinCmp(v); ok && (op == token.EQL || op == token.NEQ) && core.IsNamed(x.Type(), checkgroupPkg, "Membership") {
+						if kk, isK := core.IntConst(y); isK && kk == ri.MemberVals["NotMember"] {
+							is := (op == token.EQL) == truth
+							w := -1
+							if is {
+								w = 1
+							}
+							if f.mNM != 0 && f.mNM != w {
+								feasible = false
+							}
+							g.mNM = w
+						}
+					}
+				}
+				if feasible {
+					walkPF(g)
+				}
+			}
+		}
+		walkPF(pf{bodyFn.Blocks[0], nil, 0, 0})
+		if helperCall != nil {
+			// the helper works on the closure's own flag and context
+			if par, ok := flag.(*ssa.Parameter); ok {
+				for k, q := range bodyFn.Params {
+					if q == par && k < len(helperCall.Common().Args) {
+						flag = core.ValueOrigin(helperCall.Common().Args[k])
+					}
+				}
+			}
+			for k, q := range bodyFn.Params {
+				if core.IsNamed(q.Type(), "context", "Context") && k < len(helperCall.Common().Args) {
+					var own ssa.Value
+					for _, fp := range fn.Params {
+						if core.IsNamed(fp.Type(), "context", "Context") {
+							own = fp
+						}
+					}
+					if core.ValueOrigin(helperCall.Common().Args[k]) != own {
+						flipReachedWithout = true // marks some other context
+					}
+				}
+			}
+		}
+		if flag == nil || loadIf == nil || flipReachedWithout {
 			r.Violate("R02.3", name, "negation flip", p.Pos(flip.Pos()), "NotMember is inverted to IsMember without first reading the cut-off flag: a cut-off below this negation becomes 'allowed'")
 			continue
 		}
 		// the other branch: marks the enclosing negation with the closure's own ctx and does not produce IsMember
 		tb := loadIf.Succs[0]
+		if u, ok := loadIf.Instrs[len(loadIf.Instrs)-1].(*ssa.If).Cond.(*ssa.UnOp); ok && u.Op == token.NOT {
+			tb = loadIf.Succs[1] // if !flag.Load() {...} else {<set>}
+		}
 		var ctxPar ssa.Value
-		for _, par := range fn.Params {
+		for _, par := range bodyFn.Params {
 			if core.IsNamed(par.Type(), "context", "Context") {
 				ctxPar = par
 			}
@@ -921,7 +1080,7 @@ func r023(c *Ctx, inEng map[*ssa.Function]bool) {
 			// "membership != IsMember" and "membership != NotMember" established, whatever the
 			// order and the form (switch, if-chain, == or !=) of the two tests
 			var undet *ssa.BasicBlock
-			for _, b := range fn.Blocks {
+			for _, b := range bodyFn.Blocks {
 				if len(b.Preds) != 1 || undet != nil {
 					continue
 				}
@@ -958,6 +1117,10 @@ func r023(c *Ctx, inEng map[*ssa.Function]bool) {
 							return
 						}
 						if _, isSend := ins.(*ssa.Send); isSend {
+							leak = true
+							return
+						}
+						if _, isRet := ins.(*ssa.Return); isRet && bodyFn != fn {
 							leak = true
 							return
 						}
